@@ -17,7 +17,12 @@ def main():
     if bad:
         print('forbidden constructs in the Coq development:', bad)
         return 1
-    ok, out = C.coq_make([], timeout=3000, keep_going=True)
+    targets = []
+    for f in sorted(glob.glob(os.path.join(C.VERIF, 'harness', 'props', 'C*.py'))):
+        mod = importlib.import_module('harness.props.' + os.path.basename(f)[:-3])
+        if getattr(mod, 'READY', False):
+            targets += list(mod.MODEL_TARGETS) + [f'props/{mod.PROPS_MODULE}.vo']
+    ok, out = C.coq_make(sorted(set(targets)), timeout=3000, keep_going=True)
     print(out[-3000:])
     if not ok:
         print('SETUP: coq build failed')
